@@ -2,8 +2,8 @@
   What a session HOLDS, and what the dispatcher's `finally` block (the only teardown in server.py) gives
   back.  Small-step: the program points are the atomic segments between `await`s of the handlers and of
   the nested transfer workers, in the order the code has them
-  (`waitData → takeData → open → enterStream → … → closeStream → closeFile → reply`;
-   exit order of `async with file, stream` = stream first, then file).
+  (`waitData → takeData → [enter the items of async with in source order] → … → exits → reply`;
+   the order of the items is `Generated.Verb.workerContexts`).
 -/
 import AioftpModel.Generated.Server
 
@@ -62,23 +62,35 @@ def held (s : Sess) : List Res :=
   (if s.acquired then [.serverSlot] else []) ++
   (if s.user then [.userSlot] else [])
 
-/-- what is left after the dispatcher's `finally` ran (for a dispatched session):
+/-- does every file-transfer worker enter the stream item of its `async with` before the file item?
+    (read off the source: `Generated.Verb.workerContexts`) -/
+def streamEnteredBeforeOpen : Bool :=
+  [Verb.retr, Verb.stor, Verb.appe].all fun v => v.workerContexts.head? == some Ctx.stream
+
+/-- does a handler cancelled inside `await start_server` give the port it took back?  Either the
+    `except OSError` clause sees a CancelledError (never) or there is a clause of its own for it. -/
+def cancelReturnsPort : Bool := cancelledIsOSError || passiveCancelReturnsPort
+
+/-- what is left after the dispatcher's `finally` ran (for a dispatched session), as a function of the two
+    source facts above:
     * every pending task and worker is cancelled;
       - a worker cancelled in `waitData` held nothing;
-      - a worker cancelled inside `async with file, stream` runs both exits: stream closed, file closed;
-      - a worker cancelled while `file.__aenter__` awaits `_open` never entered the stream context:
-        the stream it took out of the session stays open;
-    * a handler cancelled inside `await start_server` does not reach `except OSError`
-      (`cancelledIsOSError = false`): the port it took is not put back;
+      - a worker cancelled inside `async with …` runs the exits of the items it ENTERED;
+      - a worker cancelled while the file item's `__aenter__` awaits `_open`: the stream it took out of the
+        session is closed iff the stream item was entered first;
+    * a handler cancelled inside `await start_server`: the port it took goes back iff some clause handles it;
     * `passive_server` set → closed, port put back; `data_connection` set → closed; control stream closed;
       slots released; entry popped from `connections`. -/
-def leftAfterFinally (s : Sess) : List Res :=
+def leftAfterFinallyWith (streamFirst portBack : Bool) (s : Sess) : List Res :=
   (match s.listener with
-    | .starting true => if cancelledIsOSError then [] else [.poolPort]
+    | .starting true => if portBack then [] else [.poolPort]
     | _ => []) ++
   (match s.worker with
-    | some ⟨.opening⟩ => [.workerData]
+    | some ⟨.opening⟩ => if streamFirst then [] else [.workerData]
     | _ => [])
+
+/-- the same for the source as it is now -/
+def leftAfterFinally (s : Sess) : List Res := leftAfterFinallyWith streamEnteredBeforeOpen cancelReturnsPort s
 
 /-- a session the server cannot reach: accepted, dispatcher task created but not yet started -/
 def undispatched : Sess := { dispatched := false }
@@ -135,7 +147,7 @@ def step (s : Sess) : Ev → Sess
 
 def run (evs : List Ev) : Sess := evs.foldl step undispatched
 
-/-- the two crash points -/
+/-- the two program points at which the pinned tree lost something (findings F6, F8) -/
 def atCrashPoint (s : Sess) : Bool :=
   (s.worker == some ⟨.opening⟩) || (s.listener == .starting true)
 
